@@ -80,6 +80,15 @@ GENERIC_HREFS = [
     ("rel-dotdot", ".."),
     ("rel-slash", "/"),
     ("rel-quote-entity", "/q&quot;&#39;&lt;&gt;"),
+    # whitespace written as an entity is whitespace (stripped after unescaping)
+    ("abs-entity-newline", "&#10;http://b.org/x"),
+    ("rel-entity-space", "&#32;/x&#9;"),
+    ("abs-entity-nbsp", "&nbsp;http://b.org/y&nbsp;"),
+    # a quote character of the OTHER kind at the edge of the value belongs to the value
+    ("rel-edge-apostrophe", "/wiki/Rock_'n'"),
+    ("rel-edge-dquote", '/search?q="ural"'),
+    ("abs-edge-apostrophe", "http://b.org/l'"),
+    ("abs-leading-apostrophe", "'http://b.org/x"),
     # not followable
     ("hash", "#"),
     ("hash-top", "#top"),
